@@ -140,51 +140,6 @@ example :
 
 /-! ### what linearizability says about the reader of `lateAddProgs` -/
 
-private theorem seen_stays {k : Key} (hc : k.cls ≠ .cache) :
-    ∀ (l : List OpRec) (σ : Spec), SeqValid σ l → (aget σ k).isSome = true →
-      (∀ r ∈ l, r.op ≠ .delete k ∧ r.op ≠ .delD k) →
-      ∀ r ∈ l, (r.op = .exists_ k → r.res ≠ .bool false) ∧ (r.op = .get k → r.res ≠ .notFound) := by
-  intro l
-  induction l with
-  | nil => intro σ _ _ _ r hr; simp at hr
-  | cons x xs ih =>
-    intro σ hv hs hnd r hr
-    obtain ⟨hx, hxs⟩ := hv
-    rcases List.mem_cons.mp hr with rfl | hr'
-    · constructor
-      · intro hop hres
-        rw [hop, hres] at hx
-        rcases hx with hx | hx
-        · simp [resEquiv, specRes, specStep, hs] at hx
-        · exact hc hx
-      · intro hop hres
-        rw [hop, hres] at hx
-        rcases hx with hx | hx
-        · cases hg : aget σ k with
-          | none => simp [hg] at hs
-          | some v => simp [resEquiv, specRes, specStep, hg] at hx
-        · exact hc hx
-    · refine ih (specApply σ x.op) hxs ?_ (fun r hr => hnd r (List.mem_cons_of_mem _ hr)) r hr'
-      have hx' := hnd x List.mem_cons_self
-      cases hop : x.op with
-      | put k' v => simp only [specApply, specStep, aget_aset]; split <;> simp [hs]
-      | putD k' v => simp only [specApply, specStep, aget_aset]; split <;> simp [hs]
-      | get k' => simpa [specApply, specStep] using hs
-      | exists_ k' => simpa [specApply, specStep] using hs
-      | scan p => simpa [specApply, specStep] using hs
-      | delete k' =>
-        have hne : k' ≠ k := fun e => hx'.1 (by rw [hop, e])
-        simp only [specApply, specStep]
-        split
-        · simp only [aget_aerase, hne, if_false]; exact hs
-        · exact hs
-      | delD k' =>
-        have hne : k' ≠ k := fun e => hx'.2 (by rw [hop, e])
-        simp only [specApply, specStep]
-        split
-        · simp only [aget_aerase, hne, if_false]; exact hs
-        · exact hs
-
 /-- in ANY linearizable history: a key that a scan has listed is found by every `exists` and
     every `get` invoked after that scan returned, as long as the history holds no delete of the key
     (keys of the cache class excepted: the ring may evict).  This is the reader's side of "a read
